@@ -11,8 +11,10 @@ import (
 	"net"
 	"os"
 	"path/filepath"
+	"strconv"
 	"strings"
 	"sync"
+	"syscall"
 	"time"
 
 	"github.com/containerd/nri/pkg/api"
@@ -31,14 +33,17 @@ type Op struct {
 type HistIn struct {
 	Kind     string `json:"kind"` // "hist"
 	Ops      []Op   `json:"ops"`
-	Excluded bool   `json:"excluded"` // contains a script outside the property's domain (stall)
+	Excluded bool   `json:"excluded"` // outside the property's domain (stall; pre-connected stub restarted)
+	// how the stub gets its connection: "dialer" (or ""), "given" (stub.WithConnection),
+	// "env" (NRI_PLUGIN_SOCKET, as the runtime launches pre-installed plugins)
+	Src string `json:"src"`
 	Stream   string `json:"stream"`   // which generator stream produced it (for the evidence)
 }
 
 // rec is one record of the observed history. Records are appended under one mutex; the
 // position in the slice is the global order.
 type rec struct {
-	T string `json:"t"` // call | ret | notify | onclose | cut | cfg | end
+	T string `json:"t"` // call | ret | notify | onclose | cut | cfg | waitret | end
 	// call/ret
 	Op     string `json:"op"`
 	I      int    `json:"i"`      // index of the operation in the input
@@ -48,6 +53,7 @@ type rec struct {
 	Conn   int    `json:"conn"`   // ret start: number of that connection (accept order); cut: connection number
 	Sid    int    `json:"sid"`    // ret start: number of the ttrpc client (session) created during this call, 0 if none; notify: session
 	Down   bool   `json:"down"`   // call wait: the harness had already seen the session end (full deadline applies)
+	Adopted bool  `json:"adopted"` // ret start: the stub took a socket that is not its own into use (descriptor number reused)
 	// cut
 	Facts *Facts `json:"facts"`
 	// end
@@ -146,7 +152,7 @@ type executor struct {
 	clients int          // ttrpc clients created by the stub
 	notified map[int]bool // sessions whose close notification has completed
 	dials   int
-	okDials int // dials that reached the listener (= connection numbers handed out)
+	okDials int // connections the stub obtained (dialled and accepted, pre-made taken into use, foreign adopted) = connection numbers handed out
 	waitsMu sync.Mutex
 	waits   int // Wait goroutines not yet returned
 	// what the harness itself has seen (only used to choose between deadline and grace, and by await)
@@ -190,6 +196,8 @@ func errKind(err error) string {
 	switch {
 	case strings.Contains(s, "already started"):
 		return "already"
+	case strings.Contains(s, "invalid socket"):
+		return "preconn"
 	case strings.Contains(s, "failed to connect to NRI service"):
 		return "dial"
 	case strings.Contains(s, "failed to register"):
@@ -216,6 +224,55 @@ func runHistory(in HistIn, dir string, tag string, tm timing) (recs []rec) {
 	defer func() {
 		// never leave the runtime end behind, whatever state the stub is in
 		go rt.close()
+	}()
+
+	// a connection made before the stub exists (WithConnection / NRI_PLUGIN_SOCKET)
+	opts := []stub.Option{}
+	var prePeer net.Conn // the runtime end's side, served when the first Start begins
+	envFd := -1
+	if in.Src == "given" || in.Src == "env" {
+		fds, err := syscall.Socketpair(syscall.AF_UNIX, syscall.SOCK_STREAM|syscall.SOCK_CLOEXEC, 0)
+		if err != nil {
+			return []rec{{T: "end", Res: "harness-error", Kind: err.Error()}}
+		}
+		pf := os.NewFile(uintptr(fds[1]), "peer")
+		prePeer, err = net.FileConn(pf)
+		pf.Close()
+		if err != nil {
+			return []rec{{T: "end", Res: "harness-error", Kind: err.Error()}}
+		}
+		if in.Src == "given" {
+			lf := os.NewFile(uintptr(fds[0]), "local")
+			lc, err := net.FileConn(lf)
+			lf.Close()
+			if err != nil {
+				return []rec{{T: "end", Res: "harness-error", Kind: err.Error()}}
+			}
+			opts = append(opts, stub.WithConnection(lc))
+			defer lc.Close()
+		} else {
+			// the descriptor NUMBER is all the stub gets; the harness never wraps it
+			envFd = fds[0]
+			os.Setenv(api.PluginSocketEnvVar, strconv.Itoa(envFd))
+			defer os.Unsetenv(api.PluginSocketEnvVar)
+		}
+		defer func() {
+			if prePeer != nil {
+				prePeer.Close()
+				if envFd >= 0 {
+					syscall.Close(envFd)
+				}
+			}
+		}()
+	}
+	planted, plantPeer := -1, -1 // a socket of the harness's own sitting at the old descriptor number
+	defer func() {
+		if plantPeer >= 0 {
+			syscall.Close(plantPeer)
+		}
+		if planted >= 0 {
+			syscall.Close(planted)
+		}
 	}()
 
 	var pending *Script // script of the Start in progress; taken by the dialer
@@ -254,11 +311,12 @@ func runHistory(in HistIn, dir string, tag string, tm timing) (recs []rec) {
 			e.mu.Unlock()
 		}()
 	}
-	st, err := stub.New(e.pl,
+	opts = append(opts,
 		stub.WithPluginName("c16"), stub.WithPluginIdx("16"),
 		stub.WithSocketPath(sock), stub.WithDialer(dialer),
 		stub.WithOnClose(func() { lg.add(rec{T: "onclose"}) }),
 		stub.WithTTRPCOptions([]ttrpc.ClientOpts{clientHook}, nil))
+	st, err := stub.New(e.pl, opts...)
 	if err != nil {
 		return []rec{{T: "end", Res: "harness-error", Kind: err.Error()}}
 	}
@@ -280,30 +338,59 @@ func runHistory(in HistIn, dir string, tag string, tm timing) (recs []rec) {
 			e.pl.cfgDelay = time.Duration(sc.CfgDelayMs) * time.Millisecond
 			e.pl.mu.Unlock()
 			e.mu.Lock()
-			d0, c0 := e.dials, e.clients
+			d0, c0, k0 := e.dials, e.clients, e.okDials
 			e.mu.Unlock()
+			if prePeer != nil {
+				// the first Start takes the pre-made connection into use: the runtime end
+				// serves its side according to this Start's script
+				e.mu.Lock()
+				e.okDials++
+				e.mu.Unlock()
+				if sc.Kind == "dialFail" {
+					// "unreachable" for a connection that exists already: its other end is
+					// gone — the runtime end hangs up before reading a byte (and keeps its
+					// session table in step with the connection numbers)
+					rt.serve(prePeer, Script{Kind: "cut", Dir: "p2r", K: 0})
+				} else {
+					rt.serve(prePeer, sc)
+				}
+				prePeer = nil
+			}
 			ctx, cancel := context.WithValue(context.Background(), opKey{}, i), context.CancelFunc(func() {})
 			if sc.CtxMs > 0 {
 				ctx, cancel = context.WithTimeout(ctx, time.Duration(sc.CtxMs)*time.Millisecond)
 			}
 			d := tm.deadline
-			if sc.Kind == "noAnswer" && sc.CtxMs == 0 {
+			if (sc.Kind == "noAnswer" && sc.CtxMs == 0) || planted >= 0 || (in.Src == "env" && prePeer == nil) {
 				d += tm.regTO
 			}
 			lg.add(rec{T: "call", Op: "start", I: i})
 			var serr error
 			ok := timed(d, func() { serr = st.Start(ctx) })
 			_ = cancel // the context must outlive Start: the stub serves requests under it
+			adopted := false
+			if planted >= 0 && ok {
+				// did the stub talk into the harness's own socket?
+				buf := make([]byte, 4096)
+				syscall.SetNonblock(plantPeer, true)
+				if n, _ := syscall.Read(plantPeer, buf); n > 0 {
+					adopted = true
+					planted = -1 // the stub has closed it; the number is not the harness's any more
+				}
+			}
 			e.mu.Lock()
-			r := rec{T: "ret", Op: "start", I: i, Dialed: e.dials > d0}
+			if adopted {
+				e.okDials++
+			}
+			r := rec{T: "ret", Op: "start", I: i, Dialed: e.dials > d0, Adopted: adopted}
 			if e.clients > c0 {
 				r.Sid = e.clients
 			}
-			if r.Dialed && sc.Kind != "dialFail" {
+			if e.okDials > k0 {
 				r.Conn = e.okDials
 			}
 			e.mu.Unlock()
-			if r.Conn > 0 {
+			if r.Conn > 0 && !adopted && sc.Kind != "dialFail" {
 				// the accept may lag the dial by a scheduling quantum
 				for j := 0; j < 2000 && rt.nsessions() < r.Conn; j++ {
 					time.Sleep(time.Millisecond)
@@ -341,21 +428,34 @@ func runHistory(in HistIn, dir string, tag string, tm timing) (recs []rec) {
 			if down {
 				d = tm.deadline
 			}
+			// a Wait that outlives its grace period is "pending"; its eventual return is a
+			// record of its own (waitret), ordered after the pending record
+			var wmu sync.Mutex
+			returned, pendingLogged := false, false
 			ok := timed(d, func() {
 				st.Wait()
+				wmu.Lock()
+				returned = true
+				if pendingLogged {
+					lg.add(rec{T: "waitret", I: i})
+				}
+				wmu.Unlock()
 				e.waitsMu.Lock()
 				e.waits--
 				e.waitsMu.Unlock()
 			})
 			r := rec{T: "ret", Op: "wait", I: i, Res: "returned", Down: down}
-			if !ok {
+			wmu.Lock()
+			if !ok && !returned {
 				if down {
 					r.Res, blocked = "blocked", true
 				} else {
 					r.Res = "pending"
 				}
+				pendingLogged = true
 			}
 			lg.add(r)
+			wmu.Unlock()
 		case "lose":
 			lg.add(rec{T: "call", Op: "lose", I: i})
 			r := rec{T: "ret", Op: "lose", I: i, Res: "none"}
@@ -394,6 +494,32 @@ func runHistory(in HistIn, dir string, tag string, tm timing) (recs []rec) {
 				r.Res = "timeout"
 			case uerr == nil:
 				r.Res = "ok"
+			}
+			lg.add(r)
+		case "plant":
+			// make the descriptor number the stub consumed refer to a socket of the harness
+			lg.add(rec{T: "call", Op: "plant", I: i})
+			r := rec{T: "ret", Op: "plant", I: i, Res: "failed"}
+			var spare []int
+			for j := 0; j < 64 && planted < 0 && envFd >= 0; j++ {
+				fds, err := syscall.Socketpair(syscall.AF_UNIX, syscall.SOCK_STREAM|syscall.SOCK_CLOEXEC, 0)
+				if err != nil {
+					break
+				}
+				switch envFd {
+				case fds[0]:
+					planted, plantPeer = fds[0], fds[1]
+				case fds[1]:
+					planted, plantPeer = fds[1], fds[0]
+				default:
+					spare = append(spare, fds[0], fds[1])
+				}
+			}
+			for _, fd := range spare {
+				syscall.Close(fd)
+			}
+			if planted >= 0 {
+				r.Res = "planted"
 			}
 			lg.add(r)
 		case "pause":
